@@ -525,6 +525,14 @@ def run(ck):
     check_restore(ck, prog)
     check_uninit(ck, prog)
     check_timeout(ck, prog)
+    # "never touches memory outside the two buffers": bounds fact at every buf[pos] access (rule shared with C04)
+    from . import C04 as _C04
+    _C04.check_idx(ck, prog)
+    # "use ... after a failed initialisation returns the programming-error code instead of acting": a failed public
+    # initialiser leaves no coder from an earlier session behind (rule shared with C10)
+    from . import C10 as _C10
+    ck.rule("C11-INITFAIL", "public initialisers: no error return before the handle is (re)initialised, unless lzma_end(strm) precedes it")
+    _C10.check_init_fail_frees(ck, prog, rule="C11-INITFAIL")
     # LZMA_BUF_ERROR is produced by lzma_code() only (second no-progress call), never by a coder (rule shared with C04)
     from . import C04
     C04.check_ret(ck, prog)
